@@ -363,7 +363,7 @@ PROPS["C17"] = dict(
     manifest=dict(
         engine="E2", design_ref="5 / C17",
         technique="exhaustive grids: (a) array configuration x start/end vectors of every length x candidates on/beside/between/outside the coordinates x modes against a linear-scan reference; (b) every DataView window x every request (and all write->read request pairs) against a cell model of the underlying array",
-        text="(a) dataSlice on arrays of rank 1-3 over 20 descriptors (all kind pairs/triples), start/end of every length 0..rank+1, full candidate products on rank 1 and reduced "
+        text="(a) dataSlice on arrays of rank 1-3 over 20 descriptors (all kind pairs/triples), start/end of every length 0..rank+1 and of different lengths (only start / only end given), full candidate products on rank 1 and reduced "
              "sets on rank 2-3, Inclusive / Exclusive / default, with and without units equal to the dimension's; extent and full content compared with the reference, or an exception "
              "expected. (b) DataView on 3x4 and 2x3x2: every window incl. illegal ones, every request (count 0..w+1, offset 0..w, omitted offset, wrong rank) through raw and typed "
              "getData/setData, and for 3x4 all write-then-read pairs; the whole array is compared with the model after every operation and rejected requests must leave array and "
@@ -374,7 +374,7 @@ PROPS["C17"] = dict(
         keys=dict(evaluations=("sum", [("count", "slices"), ("count", "view_reads"), ("count", "view_writes"), ("count", "constructions")]), distinct_nontrivial=("distinct", "outcomes")),
         rule="(a) grid of array configurations x modes x start/end tuples vs linear-scan reference over library-reported coordinates; (b) every window x every request, whole-array "
              "compare with the model after every operation; distinct_nontrivial = distinct (axis kinds, length, mode, expected class, outcome) and (rank, call site, request class, outcome) tuples.",
-        bound=dict(quick="rank 1: 20 descriptors x extents {1,2,5}; rank 2: 16 kind pairs; rank 3: 64 triples x 5 pairs per axis; views: all windows, pairs on small windows", thorough="all extents 1..5, parameter picks, 8 pairs per axis; all write->read pairs on all 60 windows"),
+        bound=dict(quick="about 280k slices (44k with start/end of different lengths, 111k with units); 101k view requests x 4 forms; 164k write->read pairs on small windows", thorough="3713 cases: all (Ls,Le) on every configuration; pairs on all windows"),
         assumptions=["doubles compared exactly", "axis coordinates are those the library reports"],
     ),
 )
